@@ -794,6 +794,15 @@ func (d *badgerNodeDB) Prune(version uint64) error {
 			Type:      rootHash.Type(),
 			Hash:      rootHash.Hash(),
 		}
+		if root.Hash.IsEmpty() {
+			// An empty root has no nodes to traverse (and is never linked to the roots derived
+			// from it, so it always looks like a lone root).
+			if err = batch.Delete(rootNodeKeyFmt.Encode(&rootHash)); err != nil {
+				return err
+			}
+			continue
+		}
+
 		var innerErr error
 		err := api.Visit(context.Background(), d, root, func(_ context.Context, n node.Node) bool {
 			h := n.GetHash()
